@@ -168,8 +168,7 @@ theorem sameHead_skel (c : Cfg) (hk : RealKind c.kind) (hcap : (c.cap == 0) = tr
     rcases hk with h | h | h | h | h <;> rw [h] <;> rfl
   simp only [Cfg.cfold, Cfg.flag, hk0, Bool.true_and, Bool.not_eq_true'] at hfold
   simp only [beq_iff_eq] at hcap
-  simp only [sameKind, hcap, hfold, beq_self_eq_true, Bool.true_and]
-  rfl
+  simp only [sameKind, hcap, beq_self_eq_true, Bool.true_and]
 
 theorem skel_aux (x : Val) :
     domElem x = true → noCap x = true → noFold x = true → inDomain x = true →
@@ -299,10 +298,11 @@ example : Val.IsEqual (fun _ _ _ => none) false exNested.val exNested.skel = .ok
 example : exTree.Dom ∧ Val.IsEqual (fun _ _ _ => none) false exTree.val exTree.skel = .ok (some .capLen) :=
   ⟨by decide, rfl⟩
 
-/-- … with case folding alone the kinds read differently (`and` / `AND`) … -/
+/-- … case folding alone is no difference any more (repair F41: the stack types are compared, not the kind words as
+presented; before it `and` / `AND` read differently) … -/
 example : Val.IsEqual (fun _ _ _ => none) false
     (Stk.val ⟨{ kind := Gen.kind_and, opt := Gen.flag_cfold }, []⟩)
-    (Stk.skel ⟨{ kind := Gen.kind_and, opt := Gen.flag_cfold }, []⟩) = .ok (some .kind) := rfl
+    (Stk.skel ⟨{ kind := Gen.kind_and, opt := Gen.flag_cfold }, []⟩) = .ok none := rfl
 
 /-- … a NaN leaf is in C04's domain and not equal to itself … -/
 example : (⟨{ kind := Gen.kind_list }, [.leaf (.num 1 "NaN".toList)]⟩ : Stk).Dom ∧
